@@ -363,4 +363,18 @@ INFO = {"name": "E-CHANOPS-mpscu",
 ASSUME = ["mpscu: sequential histories only (K2); the slab chain is abstracted to a FIFO (every publish = swap + link is complete between calls); D1 crosses >=3 slab boundaries per producer, seals partial slabs and recycles slabs through the pool on the real code every run",
           "mpscu: blocking recv forms are issued only where they complete; recv_timeout only with a zero timeout; &mut-borrowed handles are not used while a future on them is alive (enforced by the Rust borrow checker, `bad` in model and driver)"]
 
-PROPS = {}
+W_FM1 = "s %d cl 0 tr 1 cn 0 2 ts 2 1 tr 1 dr 0 dr 2 dr 1" % FIXFLAGS
+
+
+def _p(covers, witness=None):
+    return {"engines": [ENGINE], "witness": witness or {}, "assumptions": ASSUME, "covers": covers, "engine_info": INFO}
+
+
+PROPS = {
+    "C01": _p("mpsc unbounded (sync+async handles, K2, all histories): conservation of ids, no duplicate receive, failed ops leave the queue unchanged, try_send never Full, batch sends all-or-nothing with everything handed back on Closed"),
+    "C02": _p("mpsc unbounded (K2): accepted = received ++ buffered ++ destroyed in send order for all histories; receive outputs are the received list; D1 runs cross >=3 slab boundaries per producer with slab recycling"),
+    "C04": _p("mpsc unbounded (K2): Disconnected only when drained and no open sender; final except via clone-of-closed-sender (F-M1; full theorem for the repaired Clone); Closed+value after the receiver is gone; clone isolation; a closed handle rejects every form; close idempotent",
+              {"F-M1-mpscu": (ENGINE, W_FM1, "C04:F-M1-clone-after-close")}),
+    "C06": _p("mpsc unbounded receive futures/stream (K2): see docs/mpscu.md"),
+    "C09": _p("mpsc unbounded (K2): every id in exactly one location in every history; receiver close destroys exactly the buffered values; after all handles/futures are gone every id returned or dropped exactly once; D1 compares per-id drop counters across recycled slabs"),
+}
